@@ -71,6 +71,16 @@ impl DynamicConstraintsEncoder {
         self.solver_vars.len() - 1
     }
 
+    /// Marks as ignored the solver variables that were not created by this encoder
+    /// (e.g. the selectors of a `MaximalExtensionComputer` sharing the solver),
+    /// so that their identifiers are not given to new variables.
+    pub(crate) fn skip_foreign_solver_vars(&mut self) {
+        let n_vars = self.solver.borrow().n_vars();
+        while self.solver_vars.len() <= n_vars {
+            self.solver_vars.push(SolverVarType::Ignored);
+        }
+    }
+
     pub(crate) fn enable_update_attacks_to_constraints(&mut self, v: bool) {
         self.update_attacks_to_constraints = v;
     }
